@@ -210,6 +210,19 @@ func (w *Proxy) checkC02() {
 	for _, st := range w.H.Stray {
 		s.Violate("C02", "stray_frame", "%s", st)
 	}
+	for _, c := range w.clients {
+		for id, at := range c.HBSent {
+			w.Stats["client_heartbeats"]++
+			n := c.HBAcked[id]
+			if n > 1 {
+				s.Violate("C02", "duplicate_reply", "client %s got %d acknowledgements for its one heartbeat id=%d", c.Name, n, id)
+			}
+			if n == 0 && !c.SawClose && (c.Conn == nil || !c.Conn.PeerDone()) && c.ParseErr == nil && !w.clientTainted(c.Name) {
+				w.Stats["client_heartbeat_unanswered"]++
+				s.Logf("client %s: heartbeat id=%d sent at %v was never acknowledged", c.Name, id, at)
+			}
+		}
+	}
 	for _, r := range w.H.Reqs {
 		for _, rep := range r.Replies {
 			if tainted(r) {
@@ -406,7 +419,8 @@ func (w *Proxy) checkC10Idle() {
 }
 
 // protocol-managed header names: may be added/changed by a proxy hop
-var h1Managed = map[string]bool{"host": true, "content-length": true, "transfer-encoding": true, "connection": true, "keep-alive": true, "date": true, "server": true}
+var h1Managed = map[string]bool{"host": true, "content-length": true, "transfer-encoding": true, "connection": true, "keep-alive": true, "date": true, "server": true,
+	"expect": true /* answered by the hop that buffers the body */}
 
 func h1HeaderDiff(sent, got *peers.H1Msg, allowExtra map[string]bool) string {
 	seen := map[string]bool{}
